@@ -26,7 +26,16 @@ import (
 type job struct {
 	Backend string  `json:"backend"`
 	Flow    string  `json:"flow"`
-	Cases   []mcase `json:"cases"`
+	Cases   []mcase `json:"cases,omitempty"`
+	Hist    *hist   `json:"hist,omitempty"` // bounded-queue family: a history (and the subtree below it) instead of a case batch
+}
+
+// runJob runs a case batch or a history tree.
+func runJob(j job, deadline time.Time) (*batchResult, bool) {
+	if j.Hist != nil {
+		return runHistTree(j.Backend, j.Flow, *j.Hist, deadline)
+	}
+	return runBatch(0, j.Backend, j.Flow, j.Cases), false
 }
 
 type failedCase struct {
@@ -54,17 +63,27 @@ func explore(r *runner.Run, i, n int, deadline time.Time) *shardReply {
 	rep := &shardReply{Counters: map[string]int64{}, Via: map[string]int64{}}
 	distinct := map[string]struct{}{}
 	failed := map[string]int{}
-	idx := -1
+	idx, hidx := -1, -1
 	generate(r, func(j job) bool {
-		idx++
-		if (idx/setSize)%n != i {
-			return true
+		if j.Hist != nil { // history trees are dealt out one by one, case batches in sets of |backends| x |flows|
+			hidx++
+			if hidx%n != i {
+				return true
+			}
+		} else {
+			idx++
+			if (idx/setSize)%n != i {
+				return true
+			}
 		}
 		if time.Now().After(deadline) {
 			rep.NotExhaustive = "wall budget reached before the enumeration finished"
 			return false
 		}
-		res := runBatch(0, j.Backend, j.Flow, j.Cases)
+		res, cut := runJob(j, deadline)
+		if cut {
+			rep.NotExhaustive = "wall budget reached inside a bounded-queue history tree"
+		}
 		rep.Jobs++
 		rep.Infra = append(rep.Infra, res.infra...)
 		rep.Counters["evaluations"] += res.evals
@@ -75,6 +94,14 @@ func explore(r *runner.Run, i, n int, deadline time.Time) *shardReply {
 		rep.Counters["sqlite_reopens"] += res.reopens
 		rep.Counters["publish_unaccepted_within_max_body"] += res.pubUnaccepted
 		rep.Counters["forward_auth_calls"] += res.fwdCalls
+		rep.Counters["publish_refused_unsendable_header_value"] += res.optRefused
+		rep.Counters["bounded_histories"] += res.histories
+		rep.Counters["bounded_branches_ended_by_noop"] += res.histNoop
+		rep.Counters["bounded_enqueues_accepted"] += res.histAccepts
+		rep.Counters["bounded_enqueues_refused"] += res.histRefusals
+		rep.Counters["bounded_refused_on_full_queue"] += res.refusedOnFull
+		rep.Counters["bounded_refused_with_evictable_messages_drop_oldest"] += res.refusedAfterEvictable
+		rep.Counters["bounded_deliveries_of_survivors"] += res.survivorsDelivered
 		for k, v := range res.via {
 			rep.Via[k] += v
 		}
@@ -86,6 +113,16 @@ func explore(r *runner.Run, i, n int, deadline time.Time) *shardReply {
 		}
 		for _, f := range res.fails {
 			at, seen := failed[f.Key]
+			if j.Hist != nil {
+				fc := failedCase{Key: f.Key, Msg: f.Msg, Job: job{Backend: j.Backend, Flow: j.Flow, Hist: &hist{Conf: j.Hist.Conf, Ops: f.Ops}}}
+				if !seen {
+					failed[f.Key] = len(rep.Fails)
+					rep.Fails = append(rep.Fails, fc)
+				} else if len(f.Ops) < len(rep.Fails[at].Job.Hist.Ops) {
+					rep.Fails[at] = fc
+				}
+				continue
+			}
 			if seen && !(rep.Fails[at].Weak && !f.Weak) {
 				continue
 			}
@@ -180,6 +217,9 @@ func TestCheck(t *testing.T) {
 	}
 	size := func(f failedCase) int {
 		n := 0
+		if f.Job.Hist != nil {
+			n = len(f.Job.Hist.Ops)*100000 + f.Job.Hist.Conf.Depth*1000
+		}
 		for _, c := range f.Job.Cases {
 			n += 100000 + len(c.Hdrs)*1000 + len(c.BodyHex)/2 + c.N*2000
 		}
@@ -207,7 +247,7 @@ func TestCheck(t *testing.T) {
 		}
 		reported[f.Key] = true
 		recheck := func() bool { // re-run exactly these cases in a fresh application
-			again := runBatch(0, f.Job.Backend, f.Job.Flow, f.Job.Cases)
+			again, _ := runJob(f.Job, time.Time{})
 			for _, g := range again.fails {
 				if g.Key == f.Key {
 					return true
@@ -255,7 +295,7 @@ func replay(r *runner.Run, path string) {
 		return
 	}
 	runtime.GOMAXPROCS(1)
-	res := runBatch(0, f.Replay.Backend, f.Replay.Flow, f.Replay.Cases)
+	res, _ := runJob(f.Replay, time.Time{})
 	for _, m := range res.infra {
 		r.Infra("%s", m)
 	}
